@@ -21,6 +21,12 @@ class EngineError(Exception):
     """The proxies cannot represent what the code did: harness error, never a verdict."""
 
 
+class StructureMismatch(EngineError):
+    """A harness that cuts the real function into pieces (inductive steps) does not find the statements / variable names it
+    was written for - e.g. after a refactoring.  Jobs marked `optional` are then SKIPPED (reported, not a verdict) as long
+    as another job decides the same clause on whole runs."""
+
+
 class Violation:
     def __init__(self, label, model, path):
         self.label = label
